@@ -106,6 +106,9 @@ func (e *OpEngine) RunTensorEntryChecks(maxLen int) {
 					}
 					e.did("A4.pre", key)
 					gotErr := isErrVal(out.Results[1])
+					if iv, isI := out.Results[0].(interp.IfaceV); gotErr && isI && interp.IsNil(iv.V) {
+						e.find("A4.pre", key, "typed-nil-result", e.P.FuncPos(fn), "on the error path the Tensor result is a non-nil interface holding a nil pointer: `t == nil` checks downstream miss it and the first method call panics ["+label+"]")
+					}
 					switch {
 					case !cc.valid && !gotErr:
 						e.find("A4.pre", key, "accepts-invalid-config", e.P.FuncPos(fn), "accepts a configuration with an unsupported device ["+label+"]")
